@@ -662,6 +662,11 @@ class Installed(object):
                        getattr(lomond.events, 'time', None), _current[0], env.HOOKS['time'])
         _current[0] = self.world
         lomond.session.socket = SIM_SOCKET_MODULE
+        # the default session class too (persist(), iter(ws) and connect() without session_class use it)
+        WS = env.WebsocketSession
+        self._saved_cls = (WS.__dict__.get('_selector_cls'), WS.__dict__.get('_wrap_socket'))
+        WS._selector_cls = SimSelector
+        WS._wrap_socket = SimSession.__dict__['_wrap_socket']
         # the clock: module attributes (if lomond binds the module) and the global trampoline (any binding)
         if hasattr(lomond.session, 'time'):
             lomond.session.time = self.world
@@ -673,6 +678,15 @@ class Installed(object):
     def __exit__(self, *exc):
         sock, t1, t2, cur, hook = self._saved
         lomond.session.socket = sock
+        WS = env.WebsocketSession
+        for name, val in zip(('_selector_cls', '_wrap_socket'), self._saved_cls):
+            if val is None:
+                try:
+                    delattr(WS, name)
+                except AttributeError:
+                    pass
+            else:
+                setattr(WS, name, val)
         if t1 is not None:
             lomond.session.time = t1
         if t2 is not None:
